@@ -118,6 +118,76 @@ def variant_defs(body, local):
     return {v: bs[0] for v, bs in blocks.items() if len(bs) == 1 and v != '?'}
 
 
+def variant_def_blocks(body, local):
+    """like variant_defs, but every variant maps to the set of blocks that construct it (None when some definition is of another kind and no
+    variant is known)"""
+    blocks = {}
+    for b, kind, x in body.defs().get(local, []):
+        if kind == 'call':
+            c = cname(x)
+            if 'FromResidual' in c and c.endswith('::from_residual'):
+                blocks.setdefault('None' if 'Option' in c else 'Err', set()).add(b)
+            else:
+                blocks.setdefault('?', set()).add(b)
+            continue
+        if kind != 'assign' or x['lhs']['p'] or x['rv']['rk'] != 'aggregate':
+            return None
+        agg = x['rv']['agg']
+        for v in ('Result::Ok', 'Result::Err', 'Option::Some', 'Option::None'):
+            if agg.endswith(v):
+                blocks.setdefault(v.split('::')[1], set()).add(b)
+                break
+        else:
+            return None
+    if len(blocks) < 2 or not (set(blocks) - {'?'}):
+        return None
+    return blocks
+
+
+def correlated_origins_multi(body, g):
+    """{switch value: set of blocks constructing the variant that takes that edge, '?': blocks whose variant is unknown}"""
+    t = body.blocks[g]['term']
+    cur = op_local(t['discr'])
+    via_branch = None
+    for _ in range(10):
+        if cur is None:
+            return None
+        vd = variant_def_blocks(body, cur)
+        if vd:
+            if via_branch == 'result' or via_branch is None and ('Ok' in vd or 'Err' in vd):
+                m = {0: vd.get('Ok'), 1: vd.get('Err')}
+            elif via_branch == 'option':
+                m = {0: vd.get('Some'), 1: vd.get('None')}
+            else:
+                m = {0: vd.get('None'), 1: vd.get('Some')}
+            m = {k: v for k, v in m.items() if v}
+            if vd.get('?'):
+                m['?'] = vd['?']
+            return m
+        ds = [d for d in body.defs().get(cur, []) if d[1] == 'call' or not d[2]['lhs']['p']]
+        if len(ds) != 1:
+            return None
+        b, kind, x = ds[0]
+        if kind == 'call':
+            c = cname(x)
+            if c.endswith('::branch'):
+                via_branch = 'result' if 'Result' in c else 'option'
+                cur = op_local(x['args'][0])
+                continue
+            if c == 'std::result::Result::<T, E>::ok' and via_branch == 'option':
+                via_branch = 'result'
+                cur = op_local(x['args'][0])
+                continue
+            return None
+        rv = x['rv']
+        ps = body.rvalue_places(rv)
+        if rv['rk'] in ('use', 'discriminant', 'ref') and ps:
+            cur = ps[0]['l']
+        else:
+            return None
+    return None
+
+
 def correlated_origin(body, g):
     """for a switch block g whose discriminant is (the Try::branch / discriminant of) a local assigned constant Result/Option variants in
     several blocks: {switch value: defining block}; None otherwise"""
@@ -164,44 +234,43 @@ def correlated_origin(body, g):
 
 def feasible_reach(body, starts, avoid=()):
     """blocks reachable from `starts` without entering `avoid`, discarding paths that are infeasible because of correlated branches: after a
-    helper was inlined, `helper(..)?` is a switch on a value whose variant was fixed by the block that built it (Ok(..) here, the `?`
-    residual there) - a path that passed the Err construction cannot leave the switch on the Ok edge"""
+    helper was inlined, `helper(..)?` is a switch on a value whose variant was fixed by the block that built it (Ok(..) here, a `?`
+    residual there) - a path whose latest construction of that value was an Err cannot leave the switch on the Ok edge"""
     origins = {}
     for g in range(body.n):
         if body.blocks[g]['term']['k'] == 'switch':
-            o = correlated_origin(body, g)
+            o = correlated_origins_multi(body, g)
             if o:
                 origins[g] = o
-    interesting = {b for o in origins.values() for b in o.values()}
+    # for every switch: block -> variant value constructed there ('?' = unknown variant)
+    built = {g: {b: v for v, bs in o.items() for b in bs} for g, o in origins.items()}
     succ = body.succ()
     avoid = set(avoid)
     seen = set()
-    st = [(b, frozenset([b]) & interesting if b in interesting else frozenset()) for b in starts]
-    st = [(b, frozenset([b]) if b in interesting else frozenset()) for b in starts]
     out = set()
+
+    def note(state, n):
+        st = dict(state)
+        for g, bm in built.items():
+            if n in bm:
+                st[g] = bm[n]
+        return frozenset(st.items())
+    st = [(b, note(frozenset(), b)) for b in starts]
     while st:
-        b, passed = st.pop()
-        if (b, passed) in seen or b in avoid:
+        b, state = st.pop()
+        if (b, state) in seen or b in avoid:
             continue
-        seen.add((b, passed))
+        seen.add((b, state))
         out.add(b)
         nxt = list(succ[b])
         if b in origins:
-            t = body.blocks[b]['term']
-            o = origins[b]
-            hit = [v for v, db in o.items() if db in passed]
-            if len(hit) == 1:
-                v = hit[0]
+            known = dict(state).get(b)
+            if known is not None and known != '?':
+                t = body.blocks[b]['term']
                 explicit = {val: tgt for val, tgt in t['targets']}
-                nxt = [explicit[v]] if v in explicit else [t['otherwise']]
+                nxt = [explicit[known]] if known in explicit else [t['otherwise']]
         for n in nxt:
-            p2 = passed | {n} if n in interesting else passed
-            # a later construction of the same value supersedes an earlier one
-            if n in interesting:
-                for o in origins.values():
-                    if n in o.values():
-                        p2 = frozenset(x for x in p2 if x == n or x not in o.values())
-            st.append((n, p2))
+            st.append((n, note(state, n)))
     return out
 
 
